@@ -673,6 +673,7 @@ func (d *Drv) exec(op *Op, x *Exp) {
 		d.Stat.Resets++
 		// handle uniqueness is scoped to "since the last reset"
 		d.ByH = map[ecs.Entity]EID{}
+		d.foreignMaxID = 0
 	case KShrink:
 		d.Stat.ShrinkCalls++
 		switch op.Sub {
